@@ -13,7 +13,7 @@ import json, os
 from vlib.core import VERIF, CheckError
 from vlib.syslevel import run_many
 from vlib.conclevel import run_mt, calibrate
-from checks.c09 import setup_conc, query_handlers, model_lines, AREA
+from checks.c09 import setup_conc, query_handlers, model_lines, corpus_cases, new_violations, AREA
 
 OUTPUTS = [
     ("file", b'[snoopy]\noutput = file:@D@/out.log\n'),
@@ -62,6 +62,14 @@ def check(run):
             plans.append((name, ini, ops, k, 0))
             if name == "file" or not quick:
                 plans.append((name, ini, ops, k, 1))
+    # corpus first: "fork <output> <window> <grandchild>"
+    first = []
+    inis = dict(OUTPUTS)
+    for line in corpus_cases("C10", "fork\t"):
+        f = line.split("\t")
+        if f[1] in calib and 1 <= int(f[2]) <= calib[f[1]][1]:
+            first.append((f[1], inis[f[1]], calib[f[1]][0], int(f[2]), int(f[3])))
+    plans = first + [p for p in plans if p not in first]
     pred_lines = ["fork\t%s\t%d" % (ops, k) for (_, _, ops, k, _) in plans]
     preds = model_lines(run, pred_lines, "fork-pred") if hs["known"] else None
 
@@ -99,7 +107,7 @@ def check(run):
             viol("fork:child-blocked" if o["child"] == "blocks" else "fork:child-%s" % o["child"], "timeout" if o["child"] == "blocks" else "crash",
                  "a second thread holds the repository mutex in lock window %d of its wrapped call (output %s); the child forked at that instant %s "
                  "(5 s alarm) in its own exec call" % (k, name, "never returns" if o["child"] == "blocks" else "ends with " + str(o["child"])), i, o)
-        if g and o["grandchild"] != "completes":
+        if g and o["child"] == "completes" and o["grandchild"] != "completes":
             viol("fork:grandchild-blocked", "timeout", "the child's own child does not complete its exec call (output %s, window %d): %s" % (name, k, o["grandchild"]), i, o)
         if not o["parent_call"]:
             viol("fork:parent-affected", "spec_violation", "after the fork the parent's forking thread does not complete a further exec call (output %s, window %d)" % (name, k), i, o)
@@ -123,7 +131,7 @@ def check(run):
                       {"failing_input": {"mode": "forkrace", "output": "file"}, "mode": "forkrace", "ini": OUTPUTS[0][1].decode(), "observed": ro, "model_expected": race_expected})
     elif race_expected != "completes":
         run.notes.append("fork-race experiment: child completed although the model (no load-time initialisation) predicts a blocked child")
-    if not ok and not run.violations:
+    if not ok and not new_violations(run):
         run.violation("proof:%s" % failed, "proof", "proof obligation no longer checks: %s\n%s" % (failed, log[-1500:]), {"theorem": failed, "coq_log": log[-3000:]})
     run.coverage.update({
         "evaluations": len(results) + 1,
